@@ -97,6 +97,7 @@ func TestVerifC06(t *testing.T) {
 			g.framingMutants(i == 0)
 		}
 		g.hashListOps(envInt("VERIF_HASHLISTS", map[bool]int{true: 2000, false: 200}[thorough]))
+		g.newTxOps(envInt("VERIF_NEWTX", map[bool]int{true: 3000, false: 300}[thorough]))
 		nHist := envInt("VERIF_HISTORIES", map[bool]int{true: 400, false: 40}[thorough])
 		for i := 0; i < nHist; i++ {
 			g.history(20+g.rnd.Intn(40), true)
